@@ -447,6 +447,32 @@ def zero_case(draw):
     return {"kind": "lines", "lines": lines, "expect_ok": ok, "what": "zero_as_option_value_or_threshold"}
 
 
+@st.composite
+def after_modification_case(draw):
+    """a constraint written below a MODIFICATION belongs to the modified node (another node was defined in between and
+    would give the opposite answer)"""
+    ok = draw(st.booleans())
+    fam = draw(st.sampled_from(["condition", "options", "format"]))
+    if fam == "condition":
+        lim = draw(st.integers(3, 50))
+        good, bad = lim - draw(st.integers(1, 2)), lim + draw(st.integers(0, 5))
+        x, y = (good, bad) if ok else (bad, good)
+        lines = ["x int = 1", f"y int = {y}", f"x = {x}", f'  !condition ("{{?}} < {lim}")']
+    elif fam == "options":
+        opts = draw(st.lists(st.integers(0, 9), min_size=1, max_size=3, unique=True))
+        inn, out = draw(st.sampled_from(opts)), max(opts) + draw(st.integers(1, 4))
+        x, y = (inn, out) if ok else (out, inn)
+        cons = ["  !options [" + ",".join(map(str, opts)) + "]"] if draw(st.booleans()) else [f"  = {o}" for o in opts]
+        lines = [f"x int = {opts[0]}", f"y int = {y}", f"x = {x}"] + cons
+    else:
+        good, bad = draw(st.sampled_from(["abc", "hello"])), draw(st.sampled_from(["Abc", "a1", "x y"]))
+        x, y = (good, bad) if ok else (bad, good)
+        lines = ["x str = 'start'", f"y str = '{y}'", f"x = '{x}'", "  !format '^[a-z]+$'"]
+    if draw(st.booleans()):
+        lines.append("z bool = true")
+    return {"kind": "lines", "lines": lines, "expect_ok": ok, "what": "constraint_below_a_modification"}
+
+
 def strategies(tier):
     return {"numeric": (numeric_case(), 2500, 60000), "string": (string_case(), 800, 20000), "bool": (bool_case(), 200, 4000),
             "array": (array_case(), 600, 12000), "declaration": (decl_case(), 150, 2000),
@@ -455,7 +481,7 @@ def strategies(tier):
             "two_conditions": (two_conditions_case(), 300, 6000), "array_redef": (array_redef_case(), 300, 6000),
             "custom_unit_options": (custom_unit_options_case(), 250, 5000), "format_array": (format_array_case(), 150, 3000),
             "format_multiline": (format_multiline_case(), 150, 3000), "mixed_joiners": (mixed_joiners_case(), 300, 6000),
-            "zero": (zero_case(), 300, 6000)}
+            "zero": (zero_case(), 300, 6000), "after_modification": (after_modification_case(), 300, 6000)}
 
 
 # --------------------------------------------------------------------------- rendering
